@@ -55,9 +55,46 @@ Fixpoint check_from (st : wstate) (ops : list wop) (os : list obs) : bool :=
 
 Definition check_case (c : case) : bool := check_from init (c_ops c) (c_obs c).
 
-Fixpoint mismatches_from (i : nat) (cs : list case) : list nat :=
+(* ---- concurrent phase: the observed outcome must equal SOME sequential order of the model ---- *)
+
+Fixpoint inserts {A : Type} (x : A) (l : list A) : list (list A) :=
+  match l with
+  | [] => [[x]]
+  | y :: r => (x :: l) :: map (cons y) (inserts x r)
+  end.
+Fixpoint perms {A : Type} (l : list A) : list (list A) :=
+  match l with
+  | [] => [[]]
+  | x :: r => flat_map (inserts x) (perms r)
+  end.
+
+(* run the overlapping calls in one order; every call must return what it was seen to return *)
+Fixpoint lin_from (st : wstate) (l : list (wop * wout)) : option wstate :=
+  match l with
+  | [] => Some st
+  | (o, x) :: r => let '(s1, y) := step Fixed st o in if wout_eqb x y then lin_from s1 r else None
+  end.
+
+(* pre: sequential prefix with observations; conc: calls released together, each with its return value;
+   post: sequential suffix (every token ever issued is presented again) with observations *)
+Record conc := { k_pre : list wop; k_pre_obs : list obs; k_conc : list (wop * wout);
+                 k_post : list wop; k_post_obs : list obs }.
+
+Definition check_conc (k : conc) : bool :=
+  check_from init (k_pre k) (k_pre_obs k) &&
+  let s := fst (run Fixed init (k_pre k)) in
+  existsb (fun p => match lin_from s p with
+                    | Some s1 => check_from s1 (k_post k) (k_post_obs k)
+                    | None => false
+                    end) (perms (k_conc k)).
+
+Inductive xcase := Seq (c : case) | Conc (k : conc).
+Definition check_xcase (x : xcase) : bool :=
+  match x with Seq c => check_case c | Conc k => check_conc k end.
+
+Fixpoint mismatches_from (i : nat) (cs : list xcase) : list nat :=
   match cs with
   | [] => []
-  | c :: r => if check_case c then mismatches_from (S i) r else i :: mismatches_from (S i) r
+  | c :: r => if check_xcase c then mismatches_from (S i) r else i :: mismatches_from (S i) r
   end.
 Definition mismatches := mismatches_from 0.
